@@ -13,7 +13,7 @@ from core import *
 
 NEEDS = ["DDE", "DDEProofs", "History", "HistoryProofs", "Corr"]
 VARPOOL = ["x", "z", "v", "u", "r", "a", "w", "s", "g", "m"]
-GUARDS = ["edge_delay_above_step"]
+GUARDS = ["edge_delay_above_step", "delays_uniform"]
 
 # ---------------------------------------------------------------------------------------------- impl side (worker)
 def _dec(q):
@@ -85,6 +85,69 @@ def _polyhist(css):
         return np.array(out, dtype=np.float64)
     return hist
 
+def _impl_vec(case, dt):
+    import io, contextlib
+    import numpy as np
+    import pyr
+    from pyrates import OperatorTemplate, NodeTemplate, CircuitTemplate
+    n, V, P = case["units"], case["vars"], case["parnames"]
+    variables = {v: f"{'output' if i == 0 else 'variable'}({_dec(case['init'][i])})" for i, v in enumerate(V)}
+    variables.update({p: float(Fr(val)) for p, val in zip(P, case["parinit"])})
+    op = OperatorTemplate(name="op1", path=None, equations=equation_strings(case), variables=variables)
+    # the per-node initial value of the first variable reveals the order of the units in the merged vectors
+    nodes = {f"N{i}": NodeTemplate(name="n1", path=None, operators={op: {V[0]: float(i + 1)}}) for i in range(n)}
+    c = CircuitTemplate(name="c", path=None, nodes=nodes)
+    try:
+        with contextlib.redirect_stdout(io.StringIO()):
+            func, args, names, smap = c.get_run_func("c10v", step_size=dt, file_name="c10vec", backend="default", solver=case["solver"],
+                                                     vectorize=True, float_precision="float64", in_place=False, clear=False)
+    except Exception as e:
+        return dict(pyr.errclass(e), stage="compile")
+    names = list(names)
+    def find(suffix, keys):
+        m = [k for k in keys if k.endswith(suffix)]
+        assert len(m) == 1, (suffix, list(keys))
+        return m[0]
+    starts = []
+    for v in V:
+        rng_ = smap[find(f"/op1/{v}", smap.keys())]
+        assert isinstance(rng_, tuple) and rng_[1] - rng_[0] == n, smap
+        starts.append(int(rng_[0]))
+    mark = np.asarray(args[1], dtype=np.float64).reshape(-1)[starts[0]:starts[0] + n]
+    perm = [int(np.where(mark == float(i + 1))[0][0]) for i in range(n)]      # model unit i -> position in the real vectors
+    assert sorted(perm) == list(range(n)), mark
+    outs = []
+    for pt in case["points"]:
+        a = list(args)
+        tq = Fr(pt["t"])
+        a[0] = int(tq) if case["solver"] == "euler" else float(tq)
+        y = np.zeros(len(V) * n, dtype=np.float64)
+        css = [None] * (len(V) * n)
+        for i in range(len(V)):
+            for u in range(n):
+                y[starts[i] + perm[u]] = float(Fr(pt["y"][i * n + u]))
+                css[starts[i] + perm[u]] = pt["hist"][i * n + u]
+        a[1] = y
+        if "hist" in names:
+            a[names.index("hist")] = _polyhist(css)
+        a[names.index("dy")] = np.zeros(len(V) * n, dtype=np.float64)
+        for j, pn in enumerate(P):
+            m = [k for k in names if k.endswith(f"/op1/{pn}")]
+            if m:
+                k = names.index(m[0])
+                vec = np.array(np.asarray(args[k], dtype=np.float64)).reshape(-1)
+                assert vec.shape[0] == n, (pn, vec.shape)
+                for u in range(n):
+                    vec[perm[u]] = float(Fr(pt["par"][j][u]))
+                a[k] = vec.reshape(np.shape(args[k]))
+        try:
+            dy = np.asarray(func(*a), dtype=np.float64).reshape(-1)
+        except Exception as e:
+            return dict(pyr.errclass(e), stage="call")
+        outs.append([[pyr.frac(dy[starts[i] + perm[u]]) for i in range(len(V))] for u in range(n)])
+    # the model's layout: variable i starts at i*n in MODEL order; y/hist of the case are given in that layout
+    return {"pos": [i * n for i in range(len(V))], "out": outs, "real_starts": starts, "unit_positions": perm}
+
 def impl(case):
     """real PyRates; returns {"pos": [...], "out": [...]} or {"err": "raised", ...} when PyRates raises"""
     import io, contextlib, warnings
@@ -95,18 +158,50 @@ def impl(case):
     try:
         kind = case["kind"]
         dt = float(Fr(case["dt"]))
+        if kind == "adapt":
+            # adaptive run: record every DDEHistory.__init__/update/__call__ (wrappers inside this worker only)
+            from pyrates.backend.base import base_backend as bb
+            ops = []
+            o_init, o_upd, o_call = bb.DDEHistory.__init__, bb.DDEHistory.update, bb.DDEHistory.__call__
+            def w_init(self, y0, t0=0.0, max_steps=None):
+                o_init(self, y0, t0=t0, max_steps=max_steps)
+                ops.append(["i", pyr.frac(t0), pyr.fracs(y0)])
+            def w_upd(self, t, y):
+                ops.append(["u", pyr.frac(t), pyr.fracs(y)])
+                return o_upd(self, t, y)
+            def w_call(self, t):
+                r = o_call(self, t)
+                ops.append(["q", pyr.frac(float(t)), pyr.fracs(r)])
+                return r
+            bb.DDEHistory.__init__, bb.DDEHistory.update, bb.DDEHistory.__call__ = w_init, w_upd, w_call
+            try:
+                c = _build_node_circuit(case)
+                outputs = {v: f"A/op1/{v}" for v in case["vars"]}
+                try:
+                    with contextlib.redirect_stdout(io.StringIO()):
+                        res = c.run(simulation_time=float(Fr(case["T"])), step_size=dt, solver="scipy", outputs=outputs, backend="default",
+                                    vectorize=False, float_precision="float64", clear=False, file_name="c10adapt")
+                except Exception as e:
+                    return dict(pyr.errclass(e), stage="run")
+            finally:
+                bb.DDEHistory.__init__, bb.DDEHistory.update, bb.DDEHistory.__call__ = o_init, o_upd, o_call
+            i0 = max(i for i, o in enumerate(ops) if o[0] == "i")      # the history object the run used
+            return {"pos": list(range(len(case["vars"]))), "out": [], "ops": ops[i0:], "rows": int(res.shape[0]),
+                    "trajectory": [[pyr.frac(t)] + [pyr.frac(res[v].values[i]) for v in case["vars"]] for i, t in enumerate(res.index.values)]}
         if kind == "run":
             c = _build_node_circuit(case)
             outputs = {v: f"A/op1/{v}" for v in case["vars"]}
             try:
                 with contextlib.redirect_stdout(io.StringIO()):
-                    res = c.run(simulation_time=case["steps"] * dt, step_size=dt, solver="euler", outputs=outputs, backend="default",
+                    res = c.run(simulation_time=case["steps"] * dt, step_size=dt, solver=case["solver"], outputs=outputs, backend="default",
                                 vectorize=False, float_precision="float64", clear=False, file_name="c10run")
             except Exception as e:
                 return dict(pyr.errclass(e), stage="run")
             assert res.shape[0] == case["steps"], res.shape
             return {"pos": list(range(len(case["vars"]))),
                     "out": [[pyr.frac(res[v].values[i]) for v in case["vars"]] for i in range(case["steps"])]}
+        if kind == "vec":
+            return _impl_vec(case, dt)
         c = _build_edge_circuit(case) if kind == "edge" else _build_node_circuit(case)
         try:
             with contextlib.redirect_stdout(io.StringIO()):
@@ -218,6 +313,10 @@ def gen_func(rng, neg_class=False, dt_class=False):
                     fs.append(["p", rng.randrange(ncoef)])
                 else:
                     fs.append([rng.choice(["real", "sign"]), str(Fr(rng.randint(1, 9), 4) + Fr(1, 16))])
+            if len(fs) > 1 and all(f[0] == "p" for f in fs):
+                # products of parameters only: c*k**3 + c*k**2 + ... does not compile at all (AttributeError "'Add' object has no
+                # attribute 'shape'", no delayed term involved) — a parser defect outside C10, kept out of this stream
+                fs[0] = ["v", rng.randrange(nv)]
             c = Fr(rng.choice([-6, -4, -3, -2, -1, 1, 2, 3, 4, 6, 8]), 4)
             if npast and nterms > 1 and c < 0:
                 c = -c                      # inside the guard past_terms_printable; negative feedback comes from parameters
@@ -310,7 +409,7 @@ def exact_steps(case, limit=44):
         al = (t - ts[i]) / (ts[i + 1] - ts[i])
         return [a + al * (b - a) for a, b in zip(ys[i], ys[i + 1])]
     y = list(ys[0])
-    for i in range(case["steps"]):
+    def F(i, yy):
         f = []
         for r in case["eqs"]:
             acc = Fr(0)
@@ -318,7 +417,7 @@ def exact_steps(case, limit=44):
                 v = Fr(c)
                 for fa in fs:
                     if fa[0] == "v":
-                        v *= y[fa[1]]
+                        v *= yy[fa[1]]
                     elif fa[0] == "p":
                         v *= par[fa[1]]
                     else:
@@ -326,9 +425,21 @@ def exact_steps(case, limit=44):
                         v *= H(i * dt - d)[fa[1]]
                 acc += v
                 if _bits(v) > limit or _bits(acc) > limit:
-                    return i
+                    return None
             f.append(acc)
-        y = [a + dt * b for a, b in zip(y, f)]
+        return f
+    for i in range(case["steps"]):
+        k1 = F(i, y)
+        if k1 is None:
+            return i
+        if case["solver"] == "heun":
+            y0 = [a + dt * b for a, b in zip(y, k1)]
+            k2 = F(i, y0) if all(_bits(a) <= limit for a in y0) else None
+            if k2 is None or any(_bits(a + b) > limit for a, b in zip(k1, k2)):
+                return i
+            y = [a + dt / 2 * (b + c) for a, b, c in zip(y, k1, k2)]
+        else:
+            y = [a + dt * b for a, b in zip(y, k1)]
         if any(_bits(a) > limit for a in y):
             return i
         ts.append((i + 1) * dt); ys.append(list(y))
@@ -357,7 +468,7 @@ def gen_run(rng):
     if not any(f[0] == "past" for r in eqs for _, fs in r for f in fs):
         eqs[0] = [["1", [["p", 0], ["past", delayed, delay(), 1]]]]
     case = dict(kind="run", vars=vars_, init=[str(Fr(rng.randint(-4, 4), 2)) for _ in range(nv)], parnames=parnames, parinit=parinit,
-                eqs=eqs, solver="euler", dt=str(dt), steps=rng.randint(8, 14), use_t=False)
+                eqs=eqs, solver=rng.choice(["euler", "heun"]), dt=str(dt), steps=rng.randint(8, 14), use_t=False)
     case["steps"] = max(2, exact_steps(case))
     return case
 
@@ -369,8 +480,44 @@ def gen_long_run(rng):
     case = dict(kind="run", vars=vars_, init=[str(Fr(rng.randint(1, 4), 2)), str(Fr(rng.randint(-4, 4), 2))], parnames=["k0", "d0"],
                 parinit=[str(rng.choice([Fr(1, 2), 1, Fr(-1, 2)])), str(dt * Fr(5, 2))],
                 eqs=[[["1", [["p", 0]]]], [["1", [["past", 0, ["lit", str(dt * Fr(3, 2))], 1]]], ["-1", [["past", 0, ["par", 1], 0]]]]],
-                solver="euler", dt=str(dt), steps=rng.randint(1040, 1100), use_t=False, long=True)
+                solver=rng.choice(["euler", "heun"]), dt=str(dt), steps=rng.randint(1040, 1100), use_t=False, long=True)
     assert exact_steps(case) == case["steps"]
+    return case
+
+def gen_vec(rng, f5_class=False):
+    """n structurally equal nodes (one shared operator template, per-node parameter values) compiled with vectorize=True:
+    every variable is a vector of n units.  Point data: y and hist are laid out variable-major (variable i, unit u at
+    i*n+u in MODEL order; the worker maps units to the positions of the real vector), par[p][u] per unit."""
+    base = gen_func(rng)
+    while base["use_t"] or base["dt"] not in ("1/8", "1/4", "1/16", "1/2"):
+        base = gen_func(rng)
+    n = rng.randint(2, 4)
+    nv, npar = len(base["vars"]), len(base["parnames"])
+    dps = [j for j, p in enumerate(base["parnames"]) if p.startswith("d")]
+    case = dict(base, kind="vec", units=n, delay_pars=dps)
+    pts = []
+    for p in base["points"]:
+        par = []
+        for j in range(npar):
+            if j in dps:
+                vals = [str(Fr(rng.randint(1, 12), 8)) for _ in range(n)] if f5_class else [str(Fr(rng.randint(1, 12), 8))] * n
+            else:
+                vals = [str(Fr(rng.choice([-8, -6, -4, -3, -2, -1, 1, 2, 3, 4, 6, 8]), 4)) for _ in range(n)]
+            par.append(vals)
+        pts.append(dict(t=p["t"], y=[str(Fr(rng.randint(-16, 16), 4)) for _ in range(nv * n)], par=par,
+                        hist=[[str(Fr(rng.randint(-8, 8), 4)), str(Fr(rng.randint(-4, 4), 2)), str(rng.randint(-2, 2))] for _ in range(nv * n)]))
+    if f5_class:
+        used = {f[2][1] for r in case["eqs"] for _, fs in r for f in fs if f[0] == "past" and f[2][0] == "par"}
+        if not used and dps:
+            case["eqs"][0] = case["eqs"][0] + [["1/2", [["past", 0, ["par", dps[0]], 0]]]]
+    case["points"] = pts
+    return case
+
+def gen_adapt(rng):
+    """a linear DDE run with the adaptive DDE solver (scipy dopri5 + solout); only the history bookkeeping is compared"""
+    case = gen_run(rng)
+    case.update(kind="adapt", solver="scipy", T=str(Fr(rng.randint(4, 12), 4)), dt=rng.choice(["1/8", "1/16"]))
+    case.pop("steps", None)
     return case
 
 def past_keys(case):
@@ -403,18 +550,27 @@ Definition plain (m : model) : model * model * bool := (m, m, true).
 Definition with_edges (step : Qc) (es : list edge) (base : model) : model * model * bool :=
   (add_edges (edge_factor_impl step es) es base, add_edges edge_factor_spec es base, edge_delay_above_step step es).
 Definition okI_pt (m : model) (pos : list nat) (md : mode) (p : pt) : bool :=
-  let '(t, y, par, hp, exp) := p in row_eqb (impl_eval (polyhist hp) (lookup_nat pos) (lookup_q par) m md t y) exp.
+  let '(t, y, par, hp, exp) := p in row_eqb (impl_eval (polyhist hp) (lookup_nat pos) (lookup_q par) (lookup_q par) m md t y) exp.
 Definition okS_pt (m : model) (pos : list nat) (md : mode) (p : pt) : bool :=
-  let '(t, y, par, hp, exp) := p in row_eqb (spec_eval (polyhist hp) (lookup_nat pos) (lookup_q par) m md t y) exp.
+  let '(t, y, par, hp, exp) := p in row_eqb (spec_eval (polyhist hp) (lookup_nat pos) (lookup_q par) (lookup_q par) m md t y) exp.
 Definition okI (c : fcase) : bool := let '(mi, ms, g, pos, md, pts) := c in forallb (okI_pt mi pos md) pts.
 Definition okS (c : fcase) : bool := let '(mi, ms, g, pos, md, pts) := c in forallb (okS_pt ms pos md) pts.
 Definition g1 (c : fcase) : bool := let '(mi, ms, g, pos, md, pts) := c in g.
-Definition rcase := (model * list nat * list Qc * Qc * nat * list Qc * list (list Qc))%type.
+Definition tab (l : list (list Qc)) (p u : nat) : Qc := nth u (nth p l []) 0.
+Definition vpt := (Qc * list Qc * list (list Qc) * list (list Qc) * list (list Qc))%type.   (* t, y, parameter table, history polynomials, expected rows per unit *)
+Definition vcase := (model * list nat * nat * list nat * mode * list vpt)%type.               (* model, starts, units, ids of the delay parameters, mode, points *)
+Definition vokI (c : vcase) : bool := let '(m, st, n, dps, md, pts) := c in
+  forallb (fun p : vpt => let '(t, y, pt, hp, exp) := p in rows_eqb (vimpl_eval (polyhist hp) (lookup_nat st) (tab pt) (tab pt) n m md t y) exp) pts.
+Definition vokS (c : vcase) : bool := let '(m, st, n, dps, md, pts) := c in
+  forallb (fun p : vpt => let '(t, y, pt, hp, exp) := p in rows_eqb (vspec_eval (polyhist hp) (lookup_nat st) (tab pt) (tab pt) n m md t y) exp) pts.
+Definition vg (c : vcase) : bool := let '(m, st, n, dps, md, pts) := c in
+  forallb (fun p : vpt => let '(t, y, pt, hp, exp) := p in delays_uniform (map (fun i => nth i pt []) dps)) pts.
+Definition rcase := (scheme * model * list nat * list Qc * Qc * nat * list Qc * list (list Qc))%type.
 Definition rokI (c : rcase) : bool :=
-  let '(m, pos, par, dt, n, y0, exp) := c in
-  orows_eqb (run_impl (lookup_nat pos) (lookup_q par) m dt (fun _ => []) 1024 n y0) exp.
+  let '(sc, m, pos, par, dt, n, y0, exp) := c in
+  orows_eqb (run_impl sc (lookup_nat pos) (lookup_q par) (lookup_q par) m dt (fun _ => []) 1024 n y0) exp.
 Definition rokS (c : rcase) : bool :=
-  let '(m, pos, par, dt, n, y0, exp) := c in rows_eqb (run_spec (lookup_nat pos) (lookup_q par) m dt n y0) exp.
+  let '(sc, m, pos, par, dt, n, y0, exp) := c in rows_eqb (run_spec sc (lookup_nat pos) (lookup_q par) (lookup_q par) m dt n y0) exp.
 Definition rg1 (c : rcase) : bool := true.
 """
 
@@ -465,25 +621,92 @@ def coq_fcase(case, res):
     return f"({c_models(case)}, {clist([cnat(p) for p in res['pos']])}, {c_mode(case)}, {clist(pts)})"
 
 def coq_rcase(case, res):
-    return (f"({c_model(case)}, {clist([cnat(p) for p in res['pos']])}, {qrow(case['parinit'])}, {cq(case['dt'])}, "
+    return (f"({'Heun' if case['solver'] == 'heun' else 'Euler'}, {c_model(case)}, {clist([cnat(p) for p in res['pos']])}, {qrow(case['parinit'])}, {cq(case['dt'])}, "
             f"{cnat(len(res['out']))}, {qrow(case['init'])}, {clist([qrow(r) for r in res['out']])})")
 
+def coq_vcase(case, res):
+    n = case["units"]
+    pts = []
+    for p, exp in zip(case["points"], res["out"]):
+        pts.append(f"({cq(p['t'])}, {qrow(p['y'])}, {clist([qrow(r) for r in p['par']])}, {clist([qrow(h) for h in p['hist']])}, {clist([qrow(r) for r in exp])})")
+    return (f"({c_model(case)}, {clist([cnat(p) for p in res['pos']])}, {cnat(n)}, {clist([cnat(j) for j in case['delay_pars']])}, "
+            f"{c_mode(case)}, {clist(pts)})")
+
 def dummy_res(case):
+    if case["kind"] == "vec":
+        nv, n = len(case["vars"]), case["units"]
+        return dict(pos=[i * n for i in range(nv)], out=[[["0"] * nv for _ in range(n)] for _ in case["points"]])
     """shape of a result for cases on which the real code raised (only the guards are evaluated on them)"""
     if case["kind"] == "run":
         return dict(pos=list(range(len(case["vars"]))), out=[])
     return dict(pos=list(range(len(case["vars"]))), out=[["0"] * len(case["vars"]) for _ in case["points"]])
 
+ADAPT_HEADER = """From Coq Require Import List ZArith QArith Qcanon Bool.
+From PV Require Import History DDE.
+Import ListNotations.
+"""
+
+def adapt_compare(ctx, case, res, tag):
+    """True iff (a) the update times never decrease and records with equal times are equal (the adaptive path feeds every output
+    time twice: solout at the end of one integrate() segment and at the start of the next) and (b) every recorded lookup is answered from the rows that
+    the model's qcase selects among the records present at that moment (row 0 / last row / float interpolation of rows
+    idx, idx+1 with DDEHistory's own formula).  The row selection is computed inside Coq; the comparison is exact."""
+    import numpy as np
+    ops = res["ops"]
+    assert ops and ops[0][0] == "i"
+    t0 = ops[0][1]
+    body = ("Definition ops : list (bool * Qc) := " + clist([f"({cbool(o[0] == 'u')}, {cq(o[1])})" for o in ops[1:]]) + ".\n"
+            f"Definition qs := qcases [{cq(t0)}] ops.\n"
+            "Eval vm_compute in (map fst qs).\nEval vm_compute in (map snd qs).\n"
+            f"Eval vm_compute in (if weak_incrb ({cq(t0)} :: op_update_times ops) then @nil nat else [1%nat]).\n")
+    ls = parse_nat_lists(coq_eval(ctx, f"c10_adapt_{tag}", ADAPT_HEADER, body))
+    assert len(ls) == 3, ls
+    kinds, idxs, notincr = ls
+    if notincr:
+        return False, "update times decrease"
+    f = lambda v: np.array([float(Fr(x)) for x in v], dtype=np.float64)
+    ts, rows, k = [float(Fr(t0))], [f(ops[0][2])], 0
+    for o in ops[1:]:
+        if o[0] == "u":
+            ts.append(float(Fr(o[1]))); rows.append(f(o[2]))
+            if ts[-1] == ts[-2] and not np.array_equal(rows[-1], rows[-2]):
+                return False, f"two different records at the same time {ts[-1]}"
+            continue
+        t, kind, idx = float(Fr(o[1])), kinds[k], idxs[k]
+        k += 1
+        if kind == 0:
+            exp = rows[0]
+        elif kind == 1:
+            exp = rows[idx]
+            if idx != len(rows) - 1:
+                return False, f"lookup {k}: last-row index {idx} but {len(rows)} records"
+        else:
+            alpha = (t - ts[idx]) / (ts[idx + 1] - ts[idx])
+            exp = rows[idx] + alpha * (rows[idx + 1] - rows[idx])
+        if not np.array_equal(exp, f(o[2])):
+            return False, f"lookup {k} at t={t}: answered {o[2]}, rows selected by the model give {list(exp)} (case {kind}, idx {idx})"
+    assert k == len(kinds)
+    # (c) the records are the solver's own steps: every returned sample (t_k, y_k) was fed to the history at exactly t_k
+    recs = {(o[1], tuple(o[2])) for o in ops if o[0] in "iu"}
+    for row in res.get("trajectory", []):
+        if (row[0], tuple(row[1:])) not in recs:
+            return False, f"the returned sample at t={float(Fr(row[0]))} was never recorded in the history (at that time, with that state)"
+    return True, dict(lookups=k, between=sum(1 for x in kinds if x == 2), updates=len(rows) - 1,
+                      repeated_times=sum(1 for a, b in zip(ts, ts[1:]) if a == b))
+
 def model_compare(ctx, cases, outs, tag):
     """returns (bad_vs_Impl, bad_vs_Spec, {index: [violated guards]}) ; cases on which the real code raised only get their guards evaluated"""
     badI, badS, gv = [], [], {}
-    for kind, names, mk in (("f", ("okI", "okS", "g1"), coq_fcase), ("r", ("rokI", "rokS", "rg1"), coq_rcase)):
-        idx = [i for i, c in enumerate(cases) if (c["kind"] == "run") == (kind == "r")]
+    streams = (("f", ("func", "edge"), "fcase", ("okI", "okS", "g1"), coq_fcase, GUARDS[0]),
+               ("r", ("run",), "rcase", ("rokI", "rokS", "rg1"), coq_rcase, None),
+               ("v", ("vec",), "vcase", ("vokI", "vokS", "vg"), coq_vcase, GUARDS[1]))
+    for kind, kinds_, ty, names, mk, guard in streams:
+        idx = [i for i, c in enumerate(cases) if c["kind"] in kinds_]
         shard = 80
         for s in range(0, len(idx), shard):
             part = idx[s:s + shard]
             terms = [mk(cases[i], outs[i] if "out" in outs[i] else dummy_res(cases[i])) for i in part]
-            body = (f"Definition cases : list {'fcase' if kind == 'f' else 'rcase'} := " + clist(terms) + ".\n" +
+            body = (f"Definition cases : list {ty} := " + clist(terms) + ".\n" +
                     "".join(f"Eval vm_compute in (mismatches {n} cases).\n" for n in names))
             ls = parse_nat_lists(coq_eval(ctx, f"c10_{tag}_{kind}{s}", HEADER, body))
             assert len(ls) == 3, ls
@@ -491,9 +714,14 @@ def model_compare(ctx, cases, outs, tag):
                 badI.append(part[j])
             for j in ls[1]:
                 badS.append(part[j])
-            for k, g in enumerate(GUARDS, 2):
-                for j in ls[k]:
-                    gv.setdefault(part[j], []).append(g)
+            for j in ls[2]:
+                gv.setdefault(part[j], []).append(guard)
+    for i, c in enumerate(cases):
+        if c["kind"] == "adapt" and "ops" in outs[i]:
+            ok, info = adapt_compare(ctx, c, outs[i], f"{tag}{i}")
+            outs[i]["bookkeeping"] = info
+            if not ok:
+                badI.append(i); badS.append(i)
     raised = [i for i, o in enumerate(outs) if "out" not in o]
     return sorted(i for i in badI if i not in raised), sorted(i for i in badS if i not in raised), gv
 
@@ -501,14 +729,21 @@ def model_outputs(ctx, case, res, tag):
     try:
         if "out" not in res:
             res = dummy_res(case)
+        if case["kind"] == "adapt":
+            return "bookkeeping check: " + str(res.get("bookkeeping"))
+        if case["kind"] == "vec":
+            body = (f"Definition c : vcase := {coq_vcase(case, res)}.\n"
+                    "Eval vm_compute in (let '(m, st, n, dps, md, pts) := c in map (fun p : vpt => let '(t, y, pt, hp, exp) := p in map (map this) (vspec_eval (polyhist hp) (lookup_nat st) (tab pt) (tab pt) n m md t y)) pts).\n"
+                    "Eval vm_compute in (let '(m, st, n, dps, md, pts) := c in map (fun p : vpt => let '(t, y, pt, hp, exp) := p in map (map this) (vimpl_eval (polyhist hp) (lookup_nat st) (tab pt) (tab pt) n m md t y)) pts).\n")
+            return "Spec, then Impl (rows = units):\n" + coq_eval(ctx, f"c10_show_{tag}", HEADER, body)[:5000]
         if case["kind"] == "run":
             body = (f"Definition c : rcase := {coq_rcase(case, res)}.\n"
-                    "Eval vm_compute in (let '(m, pos, par, dt, n, y0, exp) := c in map (map this) (run_spec (lookup_nat pos) (lookup_q par) m dt n y0)).\n"
-                    "Eval vm_compute in (let '(m, pos, par, dt, n, y0, exp) := c in option_map (map (map this)) (run_impl (lookup_nat pos) (lookup_q par) m dt (fun _ => []) 1024 n y0)).\n")
+                    "Eval vm_compute in (let '(sc, m, pos, par, dt, n, y0, exp) := c in map (map this) (run_spec sc (lookup_nat pos) (lookup_q par) (lookup_q par) m dt n y0)).\n"
+                    "Eval vm_compute in (let '(sc, m, pos, par, dt, n, y0, exp) := c in option_map (map (map this)) (run_impl sc (lookup_nat pos) (lookup_q par) (lookup_q par) m dt (fun _ => []) 1024 n y0)).\n")
         else:
             body = (f"Definition c : fcase := {coq_fcase(case, res)}.\n"
-                    "Eval vm_compute in (let '(mi, m, g, pos, md, pts) := c in map (fun p : pt => let '(t, y, par, hp, exp) := p in map this (spec_eval (polyhist hp) (lookup_nat pos) (lookup_q par) m md t y)) pts).\n"
-                    "Eval vm_compute in (let '(m, ms, g, pos, md, pts) := c in map (fun p : pt => let '(t, y, par, hp, exp) := p in map this (impl_eval (polyhist hp) (lookup_nat pos) (lookup_q par) m md t y)) pts).\n"
+                    "Eval vm_compute in (let '(mi, m, g, pos, md, pts) := c in map (fun p : pt => let '(t, y, par, hp, exp) := p in map this (spec_eval (polyhist hp) (lookup_nat pos) (lookup_q par) (lookup_q par) m md t y)) pts).\n"
+                    "Eval vm_compute in (let '(m, ms, g, pos, md, pts) := c in map (fun p : pt => let '(t, y, par, hp, exp) := p in map this (impl_eval (polyhist hp) (lookup_nat pos) (lookup_q par) (lookup_q par) m md t y)) pts).\n"
                     "Eval vm_compute in (let '(m, ms, g, pos, md, pts) := c in (fst (compile m), g)).\n")
         return "Spec, then Impl:\n" + coq_eval(ctx, f"c10_show_{tag}", HEADER, body)[:5000]
     except Exception as e:
@@ -533,7 +768,7 @@ def shrink(ctx, case):
             best = cand
             return True
         return False
-    if best["kind"] != "run" and len(best["points"]) > 1:
+    if best["kind"] in ("func", "edge") and len(best["points"]) > 1:
         for p in list(best["points"]):
             if attempt(dict(best, points=[p])):
                 break
@@ -575,6 +810,10 @@ def check(ctx):
         cases += [gen_func(ctx.rng, neg_class=(i % 6 == 0), dt_class=(i % 11 == 5)) for i in range(nf)]
         cases += [gen_edge(ctx.rng, one_class=(i % 4 == 0)) for i in range(ne)]
         cases += [gen_run(ctx.rng) for _ in range(nr)] + [gen_long_run(ctx.rng) for _ in range(1 if ctx.tier == "quick" else 4)]
+        cases += [gen_adapt(ctx.rng) for _ in range(6 if ctx.tier == "quick" else 60)]
+        cases += [gen_vec(ctx.rng) for _ in range(16 if ctx.tier == "quick" else 200)]
+        if GUARDS[1] in findings:
+            cases += [gen_vec(ctx.rng, f5_class=True) for _ in range(6 if ctx.tier == "quick" else 60)]
         # guard-violating stream, built on purpose from the refuted witness, only for the listed finding
         if GUARDS[0] in findings:
             cases += [gen_edge(ctx.rng, step_class=True) for _ in range(6 if ctx.tier == "quick" else 60)]
@@ -582,7 +821,7 @@ def check(ctx):
     outs = [o if isinstance(o, dict) else {"err": "bad-result", "detail": str(o)[:200]} for o in outs]
     crashed = [i for i, r in enumerate(outs) if "out" not in r]
     badI, badS, gv = model_compare(ctx, cases, outs, "main")
-    kinds = {k: sum(1 for c in cases if c["kind"] == k) for k in ("func", "edge", "run")}
+    kinds = {k: sum(1 for c in cases if c["kind"] == k) for k in ("func", "edge", "run", "adapt", "vec")}
     ctx.note(f"E1: {len(cases)} models {kinds}, {sum(len(c.get('points', [])) for c in cases)} function evaluations, "
              f"{sum(c.get('steps', 0) for c in cases)} Euler steps; impl-vs-Impl mismatches {len(badI)}, impl-vs-Spec mismatches {len(badS)}, "
              f"real code raised on {len(crashed)}, guard-violating cases {len(gv)}")
@@ -599,7 +838,7 @@ def check(ctx):
     nt = {canon(cases[i]) for i in good if nontrivial(cases[i], outs[i]["pos"])}
     unlisted = sorted({c.get("finding_guard") for c in corpus if c.get("finding_guard") and c.get("finding_guard") not in findings})
     allf = [f for i in good for r in cases[i]["eqs"] for _, fs in r for f in fs]
-    hist = dict(kinds=kinds, solver={s: sum(1 for c in cases if c["solver"] == s) for s in ("euler", "scipy")},
+    hist = dict(kinds=kinds, solver={s: sum(1 for c in cases if c["solver"] == s) for s in ("euler", "heun", "scipy")},
                 past_occurrences=sum(1 for f in allf if f[0] == "past"),
                 spelling=dict(past_call=sum(1 for f in allf if f[0] == "past" and f[3] in (0, 3)), x_of_t_minus_d=sum(1 for f in allf if f[0] == "past" and f[3] in (1, 2))),
                 parameter_delays=sum(1 for f in allf if f[0] == "past" and f[2][0] == "par"),
@@ -607,6 +846,13 @@ def check(ctx):
                 models_with_two_delays_on_one_variable=sum(1 for i in good if any(len({d for y, d in set(past_keys(cases[i])) if y == x}) >= 2 for x, _ in past_keys(cases[i]))),
                 models_delaying_a_variable_not_in_slot_0=sum(1 for i in good if any(outs[i]["pos"][x] != 0 for x, _ in past_keys(cases[i]))),
                 step_sizes=sorted({c["dt"] for c in cases}, key=lambda s: Fr(s))[:12],
+                heun_runs=sum(1 for c in cases if c["kind"] == "run" and c["solver"] == "heun"),
+                adaptive_runs=dict(cases=sum(1 for c in cases if c["kind"] == "adapt"),
+                                   lookups=sum(o.get("bookkeeping", {}).get("lookups", 0) for o in outs if isinstance(o.get("bookkeeping"), dict)),
+                                   interpolating_lookups=sum(o.get("bookkeeping", {}).get("between", 0) for o in outs if isinstance(o.get("bookkeeping"), dict)),
+                                   updates=sum(o.get("bookkeeping", {}).get("updates", 0) for o in outs if isinstance(o.get("bookkeeping"), dict)),
+                                   repeated_update_times=sum(o.get("bookkeeping", {}).get("repeated_times", 0) for o in outs if isinstance(o.get("bookkeeping"), dict))),
+                vector_models=dict(cases=sum(1 for c in cases if c["kind"] == "vec"), units=sorted({c["units"] for c in cases if c["kind"] == "vec"})),
                 guard_violating=len(gv), real_code_raised=len(crashed), unlisted_finding_witnesses_not_exercised=unlisted)
     sample = next((dict(c, points=c["points"][:1], equations=equation_strings(c)) for c in cases if c["kind"] == "func"), None)
     sample_r = next((dict(c, equations=equation_strings(c)) for c in cases if c["kind"] == "run"), None)
@@ -627,7 +873,14 @@ def check(ctx):
                                  "state positions pos(x) are read from the state map returned by get_run_func (documented API); the undelayed occurrences of x in the same "
                                  "right-hand sides tie y[pos x] to x",
                                  "repr(float(dt)) in the generated code is read back as exactly dt (Python float repr round-trips)"],
-                   assumptions=["guard edge_delay_above_step (finding C10-F4): the largest delay of the edges leaving a source variable exceeds step_size",
+                   assumptions=["guard edge_delay_above_step (finding C10-F4, a DELIBERATE threshold of the code, recorded because the property text makes no "
+                                "exception): the largest delay of the edges leaving a source variable exceeds step_size",
+                                "guard delays_uniform (finding C10-F5): with vectorize=True a delay parameter has the same value on all merged nodes",
+                                "adaptive run (scipy dopri5): floating-point arithmetic, so only the history bookkeeping is tied exactly: update times never decrease "
+                                "(every output time is fed twice with the same state: C19's hypothesis 'strictly increasing' is NOT met by this caller; harmless by "
+                                "C10_lookup_interval_nonempty), every lookup is answered from the rows DDE.qcase selects among the records present at that moment "
+                                "(float interpolation recomputed by the harness with DDEHistory's formula), every returned sample was recorded at its own time",
+                                "Heun as coded evaluates both stages with the same step counter: both read hist(i*dt - tau) (the corrector does not look at t+dt)",
                                 "delays are float literals or parameters (the regex of the x(t-d) rewrite stops at the first ')': composite delays are outside the model)",
-                                "scalar state variables, one operator per node, vectorize=False, backend='default'",
+                                "one operator per node, backend='default'; vectors only as n merged structurally equal nodes (vectorize=True)",
                                 "IEEE rounding is outside the model: the model computes in Qc"])
